@@ -134,6 +134,70 @@ pub fn run(run: &RunInfo) -> Summary {
             }
         }
     }
+    // ---- through the transport: what a reply parser is given is exactly one packet of the stream,
+    // however the stream is cut into reads (DESIGN 13.5)
+    {
+        let work: Vec<(usize, usize)> = (0..ens.len()).flat_map(|e| (0..reply.iter().find(|(k, _)| *k == ens[e].key).unwrap().1.len()).map(move |v| (e, v))).collect();
+        let sub = par_for(work.len(), |ix, acc| {
+            let (ei, vi) = work[ix];
+            let en = &ens[ei];
+            let variants = &reply.iter().find(|(k, _)| *k == en.key).unwrap().1;
+            let (vname, tk) = variants[vi];
+            let (class, instr) = table.get(tk).ctrl.unwrap();
+            let own: Vec<&(String, Vec<u8>)> = bods.iter().filter(|(l, _)| l.starts_with(&format!("{tk}:"))).collect();
+            // second packets: the first variant's baseline, and a packet outside the reply set
+            let (c0, i0) = table.get(variants[0].1).ctrl.unwrap();
+            let base0 = bods.iter().find(|(l, _)| *l == format!("{}:baseline", variants[0].1)).map(|(_, b)| b.clone()).unwrap_or_default();
+            let seconds = [frame(c0, i0, &base0), frame(0x0f, 0x0f, &[1, 2, 3])];
+            for (label, body) in own {
+                let first = frame(class, instr, body);
+                for second in &seconds {
+                    let mut stream = first.clone();
+                    stream.extend_from_slice(second);
+                    let want: Vec<(Result<String, ()>, usize)> = {
+                        let a = (en.parse)(&first).map_err(|_| ());
+                        let mut w = vec![(a.clone(), first.len())];
+                        if a.is_ok() {
+                            w.push(((en.parse)(second).map_err(|_| ()), stream.len()));
+                        }
+                        w
+                    };
+                    let st = vcore::dbx::explore(1, 1_000_000, |ctx| {
+                        let sh: crate::sim::Sh = std::rc::Rc::new(std::cell::RefCell::new(std::mem::replace(ctx, vcore::dbx::Ctx::new(vec![], vec![], 0))));
+                        let got = (en.read)(sh.clone(), &stream, 2);
+                        *ctx = std::rc::Rc::try_unwrap(sh).ok().expect("context still shared").into_inner();
+                        acc.count("cases", 1);
+                        acc.count("calls", got.len() as u64);
+                        acc.count("transport_executions", 1);
+                        let got_n: Vec<(Option<Result<String, ()>>, usize)> = got.iter().map(|(r, p)| (r.clone().map(|x| x.map_err(|_| ())), *p)).collect();
+                        let want_n: Vec<(Option<Result<String, ()>>, usize)> = want.iter().map(|(r, p)| (Some(r.clone()), *p)).collect();
+                        // after an error the stream position is not defined by the statement
+                        let same = got_n.len() == want_n.len() && got_n.iter().zip(&want_n).all(|(g, w)| g.0 == w.0 && (g.0 != Some(Err(())) && g.1 == w.1 || g.0 == Some(Err(()))));
+                        if same {
+                            acc.count("transport_agreed", 1);
+                            if ctx.deviations > 0 {
+                                acc.count("transport_split_agreed", 1);
+                            }
+                            if body.len() >= 255 {
+                                acc.count("transport_extended_agreed", 1);
+                            }
+                        } else {
+                            acc.violation(viol(
+                                format!("c15/{}/transport/{vname}/{label}/second={}/choices={:?}", en.key, hex_short(&second[..2]), ctx.choices()),
+                                format!("{}: two packets read through PacketTransport::read_packet from one stream\n  packet 1 : {}\n  packet 2 : {}\n  reads    : {:?}\n  returned : {got:?}\n  expected : {want:?} (what the parser gives for exactly each packet, and the stream offset after it)", en.key, hex_short(&first), hex_short(second), ctx.trace.iter().filter(|c| c.taken != 0).map(|c| (c.label, c.taken)).collect::<Vec<_>>()),
+                                ctx.deviations as u64,
+                            ));
+                        }
+                    });
+                    acc.max("transport_max_depth", st.max_depth);
+                }
+            }
+        });
+        acc.merge(sub);
+    }
+    if acc.get("transport_split_agreed") > 0 && acc.get("transport_extended_agreed") > 0 {
+        acc.witness("replies read through the transport with split reads and extended lengths were dispatched by their own control field");
+    }
     let nvariants: u64 = reply.iter().map(|(_, v)| v.len() as u64).sum();
     if acc.set_len("variants") == nvariants {
         acc.witness("every variant of every reply enum was returned for its own control field");
@@ -152,9 +216,9 @@ pub fn run(run: &RunInfo) -> Summary {
         transitions: acc.get("calls"),
         traces_validated: acc.get("variant_agreed") + acc.get("variant_error_agreed"),
         distinct_nontrivial: acc.get("variant_agreed") + acc.get("variant_error_agreed"),
-        rule: format!("17 reply enums x all 65,536 (class, instr) pairs x {} bodies (empty, baseline / all-present / 253..258-byte and >1000-byte bodies of every shipped command); all 256 one-byte bodies for the listed control fields and their one-byte neighbours; all inputs of length 0 and 1. distinct_nontrivial = cases with a listed control field in which the parser agreed with the packet type's own decoder", bods.len()),
+        rule: format!("17 reply enums x all 65,536 (class, instr) pairs x {} bodies (empty, baseline / all-present / 253..258-byte and >1000-byte bodies of every shipped command); all 256 one-byte bodies for the listed control fields and their one-byte neighbours; all inputs of length 0 and 1; through PacketTransport::read_packet: for every variant of every enum every body of its packet type followed by a second packet (inside / outside the reply set), every placement of one short read or pending poll (1 byte, half, all but one, pending). distinct_nontrivial = cases with a listed control field in which the parser agreed with the packet type's own decoder", bods.len()),
         exhaustive: true,
-        required_witnesses: vec!["every variant of every reply enum was returned for its own control field".into(), "foreign control fields rejected".into()],
+        required_witnesses: vec!["every variant of every reply enum was returned for its own control field".into(), "foreign control fields rejected".into(), "replies read through the transport with split reads and extended lengths were dispatched by their own control field".into()],
         assumptions: vec!["reply table = DESIGN.md Appendix B (hand written)".into(), "bodies from a finite alphabet".into()],
         bounds: json!({"control_fields": "all 65536 per enum", "bodies": bods.len()}),
         caps_hit: vec![],
